@@ -767,7 +767,10 @@ class Permutation(base.Recombinator):
     super()._on_bound()
     self._random = random if self.seed is None else random.Random(self.seed)
     if self.where.sym_hasattr('seed'):
-      self.where.rebind(seed=self.seed, skip_notification=True)
+      # NOTE: `where` derives its random generator from its seed when it is
+      # bound, thus the rebind must not skip its notification.
+      self.where.rebind(
+          seed=self.seed, notify_parents=False, raise_on_no_change=False)
 
   def recombine(
       self,
